@@ -1,0 +1,15 @@
+//go:build verif
+// +build verif
+
+package destination
+
+// VerifPoint, when set, is called at a few named points so that a test
+// harness can delay or hold the calling goroutine there.
+// Only compiled with the `verif` build tag.
+var VerifPoint func(point string)
+
+func verifPoint(p string) {
+	if f := VerifPoint; f != nil {
+		f(p)
+	}
+}
